@@ -22,7 +22,8 @@ def observe(slot, probes_p, probes_u):
 
 class C10(ProgramProperty):
     id = "C10"
-    theorems = []
+    theorems = ["C10_frame_followup", "C10_frame_chain", "C10_frame_copy", "C10_histories",
+                "C10_chain_mutates_input_pinned"]
     lean_modules = ["CuriesVerif.Properties.C10"]
     rule = ("one case = two strict input converters with overlapping records, one derivation drawn from chain (both "
             "orders, both case modes), get_subconverter, remap_curie_prefixes, remap_uri_prefixes, rewire, "
@@ -108,6 +109,24 @@ class C10(ProgramProperty):
             steps += observe(0, probes_p, probes_u) + observe(1, probes_p, probes_u)
         return {"steps": steps, "kind": kind, "D": D, "tags": ["derive=" + kind, f"followups={nf}"]}
 
+    def run_impl(self, case):
+        """Also observe object identity: the derived converter must not hold any Record object of an input
+        (this is what ties the aliasing-level model `Model/Heap.lean` — copies on entry — to the code)."""
+        from .. import common
+
+        shared = []
+        orig = common.impl_query
+
+        def spy(conv, step):
+            return orig(conv, step)
+
+        impl = common.run_impl(case["steps"], observer=lambda slots: shared.append(
+            sorted(k for k in (0, 1) if k in slots and case["D"] in slots
+                   and {id(r) for r in slots[k].records} & {id(r) for r in slots[case["D"]].records})))
+        case["_shared"] = [s for s in shared if s]
+        case["phase2_done"] = True
+        return impl
+
     def _segments(self, case, impl):
         """Observation snapshots of the two inputs, in order of time."""
         snaps = {0: [], 1: []}
@@ -148,6 +167,9 @@ class C10(ProgramProperty):
 
     def laws(self, case, impl):
         fails = []
+        if case.get("_shared"):
+            fails.append(f"the derived converter shares Record objects with input converter(s) {case['_shared'][0]} "
+                         f"(derivation {case['kind']})")
         snaps = self._segments(case, impl)
         for slot, lst in snaps.items():
             for k in range(1, len(lst)):
